@@ -1,6 +1,6 @@
 (* C11: funding settles on schedule, exactly.  Statements only. *)
 From MP.Model Require Import Prelude U128 SInt Feed Vamm VammOps Token World Engine Runtime.
-From MP.Proofs Require Import Tactics SIntFacts EngineGuards EngineArith MoreFacts FundingTxFacts.
+From MP.Proofs Require Import Tactics SIntFacts EngineGuards EngineArith MoreFacts FundingTxFacts ReverseFundingFacts.
 From MP.Model Require Import Scenario.
 
 Theorem C11_too_early_fails : forall v e s o, now e < v_next_funding (vs v) -> exists er, settle_funding v e s o = Err er.
@@ -59,6 +59,23 @@ Theorem C11_trade_charges_once : forall w i o id w' subs tm,
     funding_owed w' v p' = 0.
 Proof. exact update_position_reply_funding. Qed.
 Print Assumptions C11_trade_charges_once.
+
+(* a reversal settles the old position too: what it releases is the margin after the charge, max(0, margin - owed)
+   (the charge is capped at the margin there is; a shortfall is bad debt, which C04 / C07 speak about).  The
+   released amount minus the unrealised PnL is what an exact reversal transfers to the trader, and what the
+   re-opening leg of a larger reversal carries as margin-to-vault (with the fees marked as paid, so they are
+   not charged a second time) *)
+Theorem C11_reversal_charges_once : forall w i o w' subs tm,
+  reverse_position_reply w i o = Ok (w', subs) -> e_tmp (w_eng w) = Some tm ->
+  let v := ts_vamm tm in let t := ts_trader tm in
+  let p := get_position (w_eng w) (w_env w) v t (ts_side tm) in
+  pos_wf p -> cpf_wf (w_eng w) v -> 0 < e_dec (ec (w_eng w)) ->
+  let released := Z.max 0 (p_margin p - funding_owed w v p) in
+  exists x, schecked_sub (sneg_ released) (ts_upnl tm) = Ok x /\
+    ((exists fees, subs = fees ++ [execute_transfer t (sval x)] /\ e_tmp (w_eng w') = None) \/
+     (exists tm', e_tmp (w_eng w') = Some tm' /\ ts_mtv tm' = x /\ ts_fees_paid tm' = true)).
+Proof. exact reverse_position_reply_funding. Qed.
+Print Assumptions C11_reversal_charges_once.
 
 (* END TO END.  A successful PayFunding transaction (vAMM settlement, engine reply, the transfer; any fault
    index) advances the cumulative premium fraction by exactly the fraction the vAMM computed, and with
